@@ -41,7 +41,7 @@ func c09Gen(tier string, seed int64) []fw.Case {
 
 // lifeScenario draws a sequence of connection-level faults.
 func lifeScenario(rng *rand.Rand, base, max int) scen.Scenario {
-	sc := scen.Scenario{Client: "reconnect", Cfg: scen.BrokerCfg{Method: "A", Session: []string{"keep", "lose"}[rng.Intn(2)]}, WaitBaseMs: base, WaitMaxMs: max, TimeoutMs: 12}
+	sc := scen.Scenario{Client: "reconnect", Cfg: scen.BrokerCfg{Method: "A", Session: []string{"keep", "lose"}[rng.Intn(2)]}, WaitBaseMs: base, WaitMaxMs: max, TimeoutMs: 12, RichConnect: rng.Intn(2) == 0}
 	var steps []scen.Step
 	n := 1 + rng.Intn(8)
 	tag := 0
